@@ -95,7 +95,7 @@ fn write_caseset(cs: &CaseSet, outdir: &str, shards: usize) {
             writeln!(f, "  {}{}", c, if i + 1 < mine.len() { ";" } else { "" }).unwrap();
         }
         writeln!(f, "].").unwrap();
-        writeln!(f, "Eval vm_compute in ({} cases).", cs.runner).unwrap();
+        writeln!(f, "Eval vm_compute in (({} cases) ++ [(4242424242%N, 0%N, 0%N)]).", cs.runner).unwrap();
     }
     let mut f = fs::File::create(format!("{}/descr.txt", outdir)).expect("create");
     for d in &cs.descr {
